@@ -768,4 +768,184 @@ theorem step_panic_cases (c : Cfg) (d : Option Wl) (s : Step) (h : step c d s = 
           · simp only [step, hc] at h
             split at h <;> cases h
 
+/-! ### the pods behind the readiness verdict -/
+
+theorem foldl_count (f : Pod → Bool) (pods : List Pod) : ∀ n : Int,
+    pods.foldl (fun count p => if f p then count + 1 else count) n = n + ((pods.filter f).length : Nat) := by
+  induction pods with
+  | nil => intro n; simp
+  | cons p ps ih =>
+    intro n
+    simp only [List.foldl_cons, List.filter_cons]
+    cases hf : f p
+    · simp only [Bool.false_eq_true, if_false]; exact ih n
+    · simp only [if_true, List.length_cons]; rw [ih]; omega
+
+theorem wrappedPodCount_eq (f : Pod → Bool) (pods : List Pod) :
+    wrappedPodCount f pods = ((pods.filter f).length : Nat) := by
+  unfold wrappedPodCount
+  rw [foldl_count]; omega
+
+theorem counted_iff (rev : String) (p : Pod) :
+    ((countsFilter rev p &&
+      (if isCompleted p then false else if !isOwned p.owner then false else true)) && (p.inNamespace && p.selMatch)) =
+    liveReadyUpdated rev p := by
+  unfold countsFilter liveReadyUpdated livePod
+  cases p.inNamespace <;> cases p.selMatch <;> cases isCompleted p <;> cases isOwned p.owner <;>
+    cases p.terminating <;> cases isConsistent p rev <;> cases isPodReady p <;> rfl
+
+theorem updatedReadyOf_eq (rev : String) (pods : List Pod) :
+    updatedReadyOf rev pods = liveReadyUpdatedCount rev pods := by
+  unfold updatedReadyOf liveReadyUpdatedCount listOwned
+  rw [wrappedPodCount_eq, List.filter_filter, List.filter_filter]
+  congr 2
+  apply List.filter_congr
+  intro p _
+  exact counted_iff rev p
+
+theorem lruCount_cons (rev : String) (p : Pod) (ps : List Pod) :
+    liveReadyUpdatedCount rev (p :: ps) = (if liveReadyUpdated rev p = true then 1 else 0) + liveReadyUpdatedCount rev ps := by
+  unfold liveReadyUpdatedCount
+  simp only [List.filter_cons]
+  cases liveReadyUpdated rev p <;> simp <;> omega
+
+theorem lruCount_append (rev : String) (xs ys : List Pod) :
+    liveReadyUpdatedCount rev (xs ++ ys) = liveReadyUpdatedCount rev xs + liveReadyUpdatedCount rev ys := by
+  unfold liveReadyUpdatedCount
+  simp only [List.filter_append, List.length_append]
+  omega
+
+theorem lruCount_nonneg (rev : String) (pods : List Pod) : 0 ≤ liveReadyUpdatedCount rev pods := by
+  unfold liveReadyUpdatedCount; omega
+
+theorem degradePod_not_counted (rev : String) (h : Degrade) (p q : Pod) (hq : degradePod h p = some q) :
+    liveReadyUpdated rev q = false := by
+  cases h <;> simp only [degradePod, Option.some.injEq, reduceCtorEq] at hq <;> subst hq
+  · -- notReady
+    have : isPodReady { p with conds := [("Ready", "False")] } = false := by
+      simp [isPodReady, List.find?]
+    simp [liveReadyUpdated, this]
+  · simp [liveReadyUpdated, livePod]
+  · have : isConsistent { p with hashLabel := "", revLabel := "" } rev = false := by
+      simp [isConsistent]
+    simp [liveReadyUpdated, this]
+  · have : isCompleted { p with phase := "Failed" } = true := by simp [isCompleted]
+    simp [liveReadyUpdated, livePod, this]
+  · simp [liveReadyUpdated, livePod, isOwned]
+
+theorem degradeAt_none (h : Degrade) : ∀ (i : Nat) (pods : List Pod), pods[i]? = none → degradeAt h i pods = pods := by
+  intro i pods
+  induction pods generalizing i with
+  | nil => intro _; cases i <;> rfl
+  | cons p ps ih =>
+    intro hi
+    cases i with
+    | zero => simp at hi
+    | succ i =>
+      simp only [List.getElem?_cons_succ] at hi
+      simp only [degradeAt, ih i hi]
+
+/-- a pod that degrades is no longer counted; every other pod is counted as before -/
+theorem lruCount_degradeAt (rev : String) (h : Degrade) : ∀ (i : Nat) (pods : List Pod) (p : Pod), pods[i]? = some p →
+    liveReadyUpdatedCount rev (degradeAt h i pods) =
+      liveReadyUpdatedCount rev pods - (if liveReadyUpdated rev p = true then 1 else 0) := by
+  intro i pods
+  induction pods generalizing i with
+  | nil => intro p hp; simp at hp
+  | cons a as ih =>
+    intro p hp
+    cases i with
+    | zero =>
+      simp only [List.getElem?_cons_zero, Option.some.injEq] at hp
+      subst hp
+      simp only [degradeAt]
+      cases hq : degradePod h a with
+      | none => simp only [Option.toList, List.nil_append, lruCount_cons]; omega
+      | some q =>
+        have := degradePod_not_counted rev h a q hq
+        simp only [Option.toList, List.cons_append, List.nil_append, lruCount_cons, this, Bool.false_eq_true, if_false]
+        omega
+    | succ i =>
+      simp only [List.getElem?_cons_succ] at hp
+      simp only [degradeAt, lruCount_cons, ih i p hp]
+      omega
+
+theorem needsList_false {w : Wl} (h : needsList w = false) : 0 < w.updatedReady := by
+  unfold needsList at h
+  cases hk : w.kind <;> simp only [hk, reduceCtorEq, decide_eq_false_iff_not] at h
+  omega
+
+theorem readyPods_nonneg (w : Wl) (cl : Cluster) : 0 ≤ readyPods w cl := by
+  unfold readyPods
+  cases h : needsList w
+  · have := needsList_false h
+    simp only [Bool.false_eq_true, if_false]; omega
+  · simp only [if_true]; exact lruCount_nonneg _ _
+
+theorem countersOf_updatedReady (w : Wl) (r : Int) (cl : Cluster) : (countersOf w r cl).updatedReady = readyPods w cl := by
+  unfold countersOf readyPods
+  simp only [updatedReadyOf_eq]
+
+theorem countersOf_exact (w : Wl) (r : Int) (cl : Cluster) (hr : replicasOf w = some r) :
+    countersExact w cl (countersOf w r cl) = true := by
+  simp only [countersExact, countersOf_updatedReady, hr]
+  simp [countersOf]
+
+/-- The things a readiness check can answer. -/
+theorem planeVerdict_cases (rel : Rel) (batch : Int) (d : Option Wl) (cl : Cluster) (f : Fault) (o : VerdictOut)
+    (h : planeVerdict rel batch d cl f = .val o) :
+    o.writes = 0 ∧
+    ((o.counters = none ∧ o.ctx = none ∧ o.verdict = .err ∧
+        (d = none ∨ ∃ w, d = some w ∧ readsOK f w = false)) ∨
+     (∃ w r, d = some w ∧ replicasOf w = some r ∧ readsOK f w = true ∧ o.counters = some (countersOf w r cl) ∧
+        ((r = 0 ∧ o.ctx = none ∧ o.verdict = .is .ok) ∨
+         (r ≠ 0 ∧ ∃ e, entryOf rel batch = some e ∧ o.ctx = some (batchCtxOf rel w (countersOf w r cl) e) ∧
+            o.verdict = .is (isBatchReady (batchCtxOf rel w (countersOf w r cl) e) none))))) := by
+  unfold planeVerdict at h
+  by_cases hg : f = .get
+  · simp only [build, hg, if_true, Out.val.injEq] at h
+    subst h
+    refine ⟨rfl, Or.inl ⟨rfl, rfl, rfl, ?_⟩⟩
+    cases d with
+    | none => exact Or.inl rfl
+    | some w => exact Or.inr ⟨w, rfl, by simp [readsOK, hg]⟩
+  · cases d with
+    | none =>
+      simp only [build, hg, if_false, Out.val.injEq] at h
+      subst h
+      exact ⟨rfl, Or.inl ⟨rfl, rfl, rfl, Or.inl rfl⟩⟩
+    | some w =>
+      cases hr : replicasOf w with
+      | none => simp only [build, hg, if_false, hr] at h; cases h
+      | some r =>
+        by_cases hl : needsList w = true ∧ f = .list
+        · simp only [build, hg, if_false, hr, hl, and_self, if_true, reduceCtorEq, Out.val.injEq] at h
+          subst h
+          exact ⟨rfl, Or.inl ⟨rfl, rfl, rfl, Or.inr ⟨w, rfl, by simp [readsOK, hl.1, hl.2]⟩⟩⟩
+        · have hro : readsOK f w = true := by
+            simp only [readsOK, Bool.and_eq_true, bne_iff_ne, ne_eq, Bool.not_eq_true', Bool.and_eq_false_iff,
+              beq_eq_false_iff_ne]
+            refine ⟨hg, ?_⟩
+            by_cases hfl : f = .list
+            · right
+              cases hn : needsList w
+              · rfl
+              · exact absurd ⟨hn, hfl⟩ hl
+            · left; exact hfl
+          simp only [build, hg, if_false, hr, hl] at h
+          by_cases hr0 : r = 0
+          · simp only [hr0, if_true, Out.val.injEq] at h
+            subst h
+            refine ⟨rfl, Or.inr ⟨w, r, rfl, hr, hro, by simp [hr0], Or.inl ⟨hr0, rfl, rfl⟩⟩⟩
+          · simp only [hr0, if_false] at h
+            by_cases hb : batch < 0
+            · simp only [hb, if_true] at h; cases h
+            · simp only [hb, if_false] at h
+              cases he : rel.batches[batch.toNat]? with
+              | none => simp only [he] at h; cases h
+              | some e =>
+                simp only [he, Out.val.injEq] at h
+                subst h
+                refine ⟨rfl, Or.inr ⟨w, r, rfl, hr, hro, rfl, Or.inr ⟨hr0, e, by simp [entryOf, hb, he], rfl, rfl⟩⟩⟩
+
 end RV.CtlSts
